@@ -184,6 +184,18 @@ Definition swap_major_axis_vectors m (a b : Z) : res (result (matrix A)) :=
 
 Definition swap_minor_axis_vectors m (a b : Z) : res (result (matrix A)) :=
   if (a >=? mminor m) || (b >=? mminor m) then Val (Err IndexOutOfBounds) else
+  let* index := umul c a (AxisShape_minor_stride (m_shape m)) in
+  let* jndex := umul c b (AxisShape_minor_stride (m_shape m)) in
+  let* data := for_res (zseq (mmajor m)) (m_data m) (fun i data =>
+    let* offset := umul c i (AxisShape_major_stride (m_shape m)) in
+    let* x := uadd c index offset in
+    let* y := uadd c jndex offset in
+    ptr_swap data x y) in
+  Val (Ok (set_data m data)).
+
+(* the loop as it was before the repair of finding F5 (offsets accumulated, advanced once more after the last vector) *)
+Definition swap_minor_axis_vectors_pinned m (a b : Z) : res (result (matrix A)) :=
+  if (a >=? mminor m) || (b >=? mminor m) then Val (Err IndexOutOfBounds) else
   let* index0 := umul c a (AxisShape_minor_stride (m_shape m)) in
   let* jndex0 := umul c b (AxisShape_minor_stride (m_shape m)) in
   let* st := for_res (zseq (mmajor m)) (m_data m, index0, jndex0) (fun _ st =>
